@@ -93,22 +93,18 @@ theorem C07_division_total (fp : FpEnv) (a b : CExpr) (x y : Int)
 example : eval2 .wrapping noFp (elabE (.bin .div (.bin .sub (.un .neg (.lit .i64 9223372036854775807)) (.lit .i32 1))
     (.un .neg (.lit .i32 1)))) false = .ok (BitVec.ofInt 64 (-9223372036854775808)) := by decide
 
-/-- **Constness, full statement**: every integer constant expression in the sense of C11 6.6p6 (it has a value) is accepted
-    by `is_const_expr`, so an array whose bound it is is an array, not a VLA.  Not provable for the code as it is: see
-    `Findings/C07.lean` (`1 || (1/0 ? 1 : 2)` is answered with the division diagnostic).  Proved below for expressions all of
-    whose `?:` conditions have values. -/
-def C07_constness_Statement : Prop :=
-  ∀ (fp : FpEnv) (e : CExpr) (v : Int), Spec.Const.eval e = some v → isConstExpr .wrapping fp (elabE e) = .ok true
-
-/-- **Constness (accepted)**: trees built from the integer-constant-expression operators of C11 6.6p6 — including `%` —
-    are constant expressions for `is_const_expr`, provided every `?:` condition inside has a value (`condsDefined`, decidable). -/
-theorem C07_constness_partial (fp : FpEnv) (e : CExpr) (h : condsDefined e = true) :
+/-- **Constness (accepted).**  Every integer constant expression in the sense of C11 6.6p6 — any tree of the operators
+    `+ - * / % & | ^ << >> == != < <= > >= ! ~ - + && || ?:` and casts that has a value, where operands that C11 says are
+    not evaluated need not have one — is accepted by `is_const_expr`, so an array whose bound it is is an array, not a VLA. -/
+theorem C07_constness (fp : FpEnv) (e : CExpr) (v : Int) (h : Spec.Const.eval e = some v) :
     isConstExpr .wrapping fp (elabE e) = .ok true :=
-  isConst_elab fp e h
+  isConst_elab fp e v h
 
-/-- non-vacuity: `7 % 4` (the array bound the pinned tree turned into a VLA), and a `?:` -/
-example : condsDefined (.bin .mod (.lit .i32 7) (.lit .i32 4)) = true := by decide
-example : condsDefined (.cond (.bin .lt (.lit .i32 1) (.lit .u32 2)) (.lit .i64 3) (.bin .div (.lit .i32 1) (.lit .i32 0))) = true := by decide
+/-- non-vacuity: `7 % 4` (the array bound the pinned tree turned into a VLA), and `1 || (1/0 ? 1 : 2)` whose right operand
+    has no value -/
+example : Spec.Const.eval (.bin .mod (.lit .i32 7) (.lit .i32 4)) = some 3 := by decide
+example : Spec.Const.eval (.lor (.lit .i32 1) (.cond (.bin .div (.lit .i32 1) (.lit .i32 0)) (.lit .i32 1) (.lit .i32 2))) = some 1 := by
+  decide
 
 /-- **Constness (sound)**: on *any* node tree (not only elaborated ones), if `is_const_expr` accepts it then folding it
     never answers "not a compile-time constant" — the predicate that decides array-vs-VLA never lets the folder reach an arm
